@@ -273,6 +273,12 @@ func (s *Sim) EnableYields(sites []string, p float64) {
 // simulated time and interleaving hash. A deadlock panic at the end of the
 // bubble (goroutines left blocked after the body returned) is recovered and
 // counted as a leak probe.
+// DriverDeadlockIsViolation lists the properties whose scenarios are driven by
+// honest calls only (or promise bounded liveness): there a driver that blocks
+// for good is a violation. Not C07: its driver includes the adversary's own
+// client, which the crafted traffic may confuse.
+var DriverDeadlockIsViolation = map[string]bool{"C03": true, "C04": true, "C06": true, "C08": true, "C12": true}
+
 func RunBubble(t *testing.T, sc *kernel.Scenario, trace bool, body func(s *Sim)) *kernel.Result {
 	res := &kernel.Result{}
 	s := &Sim{Sc: sc, Res: res, Trace: trace, occ: map[string]int64{}, maxEv: sc.Cfg("max_events", 20000)}
@@ -288,7 +294,15 @@ func RunBubble(t *testing.T, sc *kernel.Scenario, trace bool, body func(s *Sim))
 					}
 					s.mu.Lock()
 					res.Count("probe.bubble_leak", 1)
+					done := s.stopped
 					s.mu.Unlock()
+					if !done && res.Violation == nil && DriverDeadlockIsViolation[sc.Property] {
+						// the scenario's driver never got to its end: some call on the
+						// honest client's API blocked for good (every goroutine of the
+						// run was durably blocked, nothing could ever wake it)
+						res.Violation = &kernel.Violation{Check: sc.Property + ".deadlock", Step: -1,
+							Detail: "a call of the honest driver never returned: every goroutine of the run was blocked for good before the scenario ended"}
+					}
 					return
 				}
 				panic(r)
